@@ -196,6 +196,13 @@ class Analysis:
         self.ghost = Ghost(self.cls, cfg)
         self.flow = F.Flow(tree_stmts, ch, use_hist=self.loop_free, hooks=self.ghost,
                            entry_env=entry_env, track=track)
+        if self.cls == 'List':
+            mx = cfg.kwargs.get('max_len')
+            symbolic = isinstance(mx, str) and not mx.lstrip('-').isdigit()
+            if symbolic:
+                # a data-dependent upper bound may be 0: even the first attempt must be preceded by
+                # the upper-bound test
+                self.flow.initial_bl = {'#pend': True}
         self.flow.run()
         self.exits = [s for kind, s, node in self.flow.exits if kind in ('fall', 'yield')]
         self.starts = self.flow.starts
